@@ -197,6 +197,13 @@ def basis_spline(  # pylint: disable=dangerous-default-value  # always replaced 
                     else (x <= knots[i + 1])  # Properly handle boundary
                 )
             ).astype(float)
+    # Comparisons with nan are always False, so without the following nulls in
+    # `x` (including those introduced by `extrapolation='na'`) would be encoded
+    # as zeros by the piecewise-constant splines rather than being propagated.
+    nulls = pandas.isnull(x)
+    if numpy.any(nulls):
+        for i in cache[0]:
+            cache[0][i] = numpy.where(nulls, numpy.nan, cache[0][i])  # type: ignore
     for d in range(1, degree + 1):
         cache[d % 2].clear()
         for i in range(len(knots) - d - 1):
